@@ -156,5 +156,9 @@ func TestVerifC02Pipelined(t *testing.T) {
 		vs.E1(t, "pipelined/three-messages/2025-06-18", env.Pick(1, 3), vs.Options{}, func() vs.Verdict { return c02Pipelined("2025-06-18", 3) }),
 		vs.E1(t, "pipelined/two-messages/2025-06-18", env.Pick(3, 4), vs.Options{}, func() vs.Verdict { return c02Pipelined("2025-06-18", 2) }),
 	}
+	// over streamable HTTP with an event store a response may also reach the client by replay: the
+	// write of a response racing the client's resumption of the cut exchange (the scenario of C08,
+	// here for "answered exactly once": no response is delivered twice or dropped)
+	scs = append(scs, vs.E1(t, "pipelined/streamable-response-write-vs-resume/2025-06-18", env.Pick(2, 3), vs.Options{}, func() vs.Verdict { return c08RaceAs("c02 response-vs-resume", "2025-06-18", false) }))
 	env.Run(scs)
 }
